@@ -847,12 +847,13 @@ class LinearInfiniteRTransform(BaseTransform):
     def set_maximum_parameter_b(self, x):
         r"""Sets up the parameter b from taken the maximum over some grid x."""
         if self.b is None:
-            self._b = np.max(x)
-            if np.abs(self.b) < 1e-16:
+            b = np.max(x)
+            if np.abs(b) < 1e-16:
                 raise ValueError(
-                    f"The parameter b {self.b} is taken from the maximum of the grid"
+                    f"The parameter b {b} is taken from the maximum of the grid"
                     f"and can't be zero."
                 )
+            self._b = b
 
     def transform(self, x: np.ndarray):
         r"""Transform from interval :math:`[0, \infty)` to :math:`[r_{min}, r_{max}]`\.
@@ -1014,12 +1015,13 @@ class ExpRTransform(BaseTransform):
     def set_maximum_parameter_b(self, x):
         r"""Sets up the parameter b from taken the maximum over x."""
         if self.b is None:
-            self._b = np.max(x)
-            if np.abs(self.b) < 1e-16:
+            b = np.max(x)
+            if np.abs(b) < 1e-16:
                 raise ValueError(
-                    f"The parameter b {self.b} is taken from the maximum of the grid"
+                    f"The parameter b {b} is taken from the maximum of the grid"
                     f"and can't be zero."
                 )
+            self._b = b
 
     def transform(self, x: np.ndarray):
         r"""
@@ -1177,12 +1179,13 @@ class PowerRTransform(BaseTransform):
     def set_maximum_parameter_b(self, x):
         r"""Sets up the parameter b from taken the maximum over x."""
         if self.b is None:
-            self._b = np.max(x)
-            if np.abs(self.b) < 1e-16:
+            b = np.max(x)
+            if np.abs(b) < 1e-16:
                 raise ValueError(
-                    f"The parameter b {self.b} is taken from the maximum of the grid"
+                    f"The parameter b {b} is taken from the maximum of the grid"
                     f"and can't be zero."
                 )
+            self._b = b
 
     @property
     def rmin(self):
